@@ -20,7 +20,7 @@ RULE = ('every interleaving of the keyboard thread with the generation loop at t
         '(sleep() is a free yield), for every input() script of the alphabet {"", h, q, EOF, ERR, BLOCK, S!} up to length 2 (3 in thorough), for a fresh session and for a session '
         'resumed inside a Markov level; every execution runs to completion; oracle: without a write of should_exit the stream is the complete uninterrupted stream; '
         'executions are grouped by the quit moment (main-loop position at the write): within a group stdout and saved files are identical, the cut is a pre-terminal boundary or between '
-        'two Markov guesses, and resuming from the saved files completes the stream; states = scheduling points visited, transitions = scheduler decisions; '
+        'two Markov guesses, and resuming from the saved files completes the stream (nothing of the uninterrupted stream is missing from quit run + resumed run); states = scheduling points visited, transitions = scheduler decisions; '
         'clock layer (sequential): the same keypress()/StatusReport body after every guess position under every combination of 0/1/2 days, hours, minutes, seconds of elapsed time; '
         'non-trivial = execution in which the keyboard thread ran between two main-loop points (not only before the first / after the last)')
 ASSUMPTIONS = ['between two scheduling points neither thread touches state the other writes; accesses inside one bytecode are atomic under the GIL',
@@ -237,7 +237,13 @@ def run_shard(shard, tier, acc):
         p = float(S.canonical_sav(sav_raw)['guessing_info.max_probability'])
         # what was emitted before the cut must not be needed again; what follows must be complete
         msgs = c15.check_resumed(B.stdout, rem, p, lab, pts, 'the run resumed after the quit (choices %r)' % (choices,))
-        emitted_before = Counter(out)
+        # nothing of the uninterrupted stream may fall between the two runs (a pre-terminal dropped at the moment of the quit shows only here:
+        # its probability lies above the saved position, so the resumed run alone looks complete)
+        have = set(out) | set(B.stdout)
+        lost = [l for l in U.stdout if l not in have]
+        if lost:
+            msgs = list(msgs) + ['lost-across-quit: %d guesses of the uninterrupted stream appear neither before the quit (after %d guesses) nor in the resumed run, e.g. %r (choices %r)'
+                                 % (len(lost), len(out), lost[:4], choices)]
         for m in msgs:
             acc.fail(dict(case0, choices=choices), '[%s, script %r] %s' % (scen, script, m), 'resume:' + m.split(':', 1)[0])
     if capped:
